@@ -361,6 +361,14 @@ class Interp(object):
             url = url + "#" + frag
         x.include = url
 
+    def op_set_repository(self, x, f=0):
+        """repository = file: URL of a document saved earlier in the run: a terminology that loads
+        (Sections below x inherit it)."""
+        if not self.U.files:
+            raise Skip("no file")
+        ent = self.U.files[f % len(self.U.files)]
+        x.repository = "file://" + ent["path"]
+
     def op_finalize(self, d):
         if kind_of(d) == "doc" and self.U.links_cyclic(d):
             raise Skip("links form a cycle: finalize would not return")
